@@ -59,7 +59,8 @@ class ServiceDecorator(Decorator):
         # This condition still does not verify the domain. Keep the behavior
         # for transition compatibility and revisit it after the legacy
         # subsystem is removed.
-        if any(name in (SERVICE_RELOAD, SERVICE_JUPYTER_KERNEL_START) for _, name in self.services):
+        # (Home Assistant lower-cases service names: pyscript.Reload is pyscript.reload)
+        if any(name.lower() in (SERVICE_RELOAD, SERVICE_JUPYTER_KERNEL_START) for _, name in self.services):
             # Keep this wording for transition compatibility. Once the legacy
             # subsystem is removed, update the message and related tests.
             raise SyntaxError(
